@@ -173,6 +173,7 @@ func runPath(w *World, s *Solver, cfg *RunConfig, fn *ssa.Function, prefix []Dec
 		m.infos = infoCache
 	}
 	s.PathBegin()
+	q0 := s.stats.Queries + s.stats.DomUnsat + s.stats.ModelHit
 	func() {
 		defer func() {
 			r := recover()
@@ -251,6 +252,11 @@ func runPath(w *World, s *Solver, cfg *RunConfig, fn *ssa.Function, prefix []Dec
 			m.res.SolverDec = true
 			break
 		}
+	}
+	// a path is also solver-decided when an assertion, assumption or cover on
+	// it was discharged by a solver query
+	if s.stats.Queries+s.stats.DomUnsat+s.stats.ModelHit > q0 && (len(m.res.Proved) > 0 || m.res.Violation != nil) {
+		m.res.SolverDec = true
 	}
 	s.PathEnd()
 	return m, m.res
